@@ -188,4 +188,7 @@ def units(tier):
             if tier == "quick" and N == 4 and len(ss) == 2 and sh != ():
                 continue
             us.append(BinShift("frac", N, ss, sh, c64=False, t0=(N != 2), align=next(aligns)))
+    if tier != "quick":
+        for u_ in us:
+            u_.budget_s = 3000        # (two-element shifts at N = 6, 8: 225 / 361 paths, over ten minutes each)
     return us
